@@ -1,3 +1,570 @@
-(* TreeMap — see docs/ for the plan of this file. *)
+(* TreeMap — the transaction-level operations (Tree.insert / update / remove /
+   truncate) on well-formed method forests: preservation of WF_txn and the exact
+   effect on routes_of_txn.  The link with the map specification is TreeMap2.v. *)
 From FoxBase Require Import Bytes.
-From FoxRoute Require Import Node Lookup Spec Tree.
+From FoxRoute Require Import Node Lookup Spec Tree MapSpec CorrHist WFDef TreeWF TreeWF2.
+From Coq Require Import Sorting.Sorted Permutation.
+Open Scope char_scope.
+
+(* ---------- roots ---------- *)
+Definition childless_ok (r : node) : Prop := nchildren r = [] -> In (nkey r) common_verbs.
+
+Definition WF_roots' (rs : list node) : Prop :=
+  firstn 4 (map nkey rs) = common_verbs /\ NoDup (map nkey rs) /\ Forall WF_root rs /\ Forall childless_ok rs.
+
+Lemma firstn_skipn_in {A} n (l : list A) x : In x l -> In x (firstn n l) \/ In x (skipn n l).
+Proof. intros H. rewrite <- (firstn_skipn n l) in H. apply in_app_or in H. exact H. Qed.
+
+Lemma NoDup_app_disjoint {A} (a b : list A) x : NoDup (a ++ b) -> In x a -> In x b -> False.
+Proof.
+  induction a as [|y a IH]; simpl; intros Hnd Ha Hb; [destruct Ha|].
+  inversion Hnd; subst. destruct Ha as [->|Ha].
+  - apply H1. apply in_or_app. right. exact Hb.
+  - apply IH; auto.
+Qed.
+
+Lemma WF_roots_alt rs : WF_roots rs <-> WF_roots' rs.
+Proof.
+  unfold WF_roots, WF_roots'. rewrite firstn_map. split.
+  - intros [H1 [H2 [H3 H4]]]. repeat split; auto.
+    apply Forall_forall. intros r Hr Hc. destruct (firstn_skipn_in 4 rs r Hr) as [Hin|Hin].
+    + rewrite <- H1. apply in_map. exact Hin.
+    + rewrite Forall_forall in H2. exfalso. apply (H2 r Hin Hc).
+  - intros [H1 [H2 [H3 H4]]]. repeat split; auto.
+    apply Forall_forall. intros r Hr Hc. rewrite Forall_forall in H4.
+    assert (In r rs) as Hin by (rewrite <- (firstn_skipn 4 rs); apply in_or_app; right; exact Hr).
+    specialize (H4 r Hin Hc). rewrite <- H1 in H4.
+    (* the key of r occurs both in the first four and after them *)
+    rewrite <- (firstn_skipn 4 rs), map_app in H2.
+    eapply NoDup_app_disjoint; [exact H2|exact H4|]. apply in_map. exact Hr.
+Qed.
+
+Lemma find_key_from_some m : forall l i0 i, find_key_from i0 m l = Some i ->
+  exists l1 x l2, l = l1 ++ x :: l2 /\ i = i0 + List.length l1 /\ nkey x = m.
+Proof.
+  induction l as [|x l IH]; intros i0 i; simpl; [discriminate|].
+  destruct (bytes_eqb_spec (nkey x) m) as [E|E].
+  - intros [= <-]. exists [], x, l. simpl. repeat split; auto; lia.
+  - intros H. apply IH in H. destruct H as [l1 [y [l2 [-> [-> Hk]]]]].
+    exists (x :: l1), y, l2. simpl. repeat split; auto; lia.
+Qed.
+
+Lemma find_key_from_none m : forall l i0, find_key_from i0 m l = None -> ~ In m (map nkey l).
+Proof.
+  induction l as [|x l IH]; intros i0; simpl; [tauto|].
+  destruct (bytes_eqb_spec (nkey x) m) as [E|E]; [discriminate|].
+  intros H [H1|H1]; [congruence|]. eapply IH; eauto.
+Qed.
+
+Lemma roots_four rs : firstn 4 (map nkey rs) = common_verbs ->
+  exists r0 r1 r2 r3 cs, rs = r0 :: r1 :: r2 :: r3 :: cs /\
+    nkey r0 = m_get /\ nkey r1 = m_post /\ nkey r2 = m_put /\ nkey r3 = Node.m_delete.
+Proof.
+  destruct rs as [|r0 [|r1 [|r2 [|r3 cs]]]]; try discriminate.
+  simpl. intros [= H0 H1 H2 H3]. exists r0, r1, r2, r3, cs. auto.
+Qed.
+
+Lemma method_index_some rs m i : firstn 4 (map nkey rs) = common_verbs -> method_index rs m = Some i ->
+  exists l1 root l2, rs = l1 ++ root :: l2 /\ i = List.length l1 /\ nkey root = m /\
+                     (is_removable m = false -> nth i common_verbs [] = m).
+Proof.
+  intros H4 Hm. destruct (roots_four rs H4) as [r0 [r1 [r2 [r3 [cs [-> [K0 [K1 [K2 K3]]]]]]]]].
+  unfold method_index in Hm.
+  destruct (bytes_eqb_spec m m_get) as [->|N0].
+  { injection Hm as <-. exists [], r0, (r1 :: r2 :: r3 :: cs). auto. }
+  destruct (bytes_eqb_spec m m_post) as [->|N1].
+  { injection Hm as <-. exists [r0], r1, (r2 :: r3 :: cs). auto. }
+  destruct (bytes_eqb_spec m m_put) as [->|N2].
+  { injection Hm as <-. exists [r0; r1], r2, (r3 :: cs). auto. }
+  destruct (bytes_eqb_spec m Node.m_delete) as [->|N3].
+  { injection Hm as <-. exists [r0; r1; r2], r3, cs. auto. }
+  simpl in Hm. apply find_key_from_some in Hm. destruct Hm as [l1 [x [l2 [-> [-> Hk]]]]].
+  exists (r0 :: r1 :: r2 :: r3 :: l1), x, l2. simpl. repeat split; auto.
+  unfold is_removable, common_verbs. simpl.
+  destruct (bytes_eqb_spec m m_get); [contradiction|]. destruct (bytes_eqb_spec m m_post); [contradiction|].
+  destruct (bytes_eqb_spec m m_put); [contradiction|]. destruct (bytes_eqb_spec m Node.m_delete); [contradiction|].
+  discriminate.
+Qed.
+
+Lemma method_index_none rs m : firstn 4 (map nkey rs) = common_verbs -> method_index rs m = None ->
+  ~ In m (map nkey rs) /\ is_removable m = true.
+Proof.
+  intros H4 Hm. destruct (roots_four rs H4) as [r0 [r1 [r2 [r3 [cs [-> [K0 [K1 [K2 K3]]]]]]]]].
+  unfold method_index in Hm.
+  destruct (bytes_eqb_spec m m_get) as [->|N0]; [discriminate|].
+  destruct (bytes_eqb_spec m m_post) as [->|N1]; [discriminate|].
+  destruct (bytes_eqb_spec m m_put) as [->|N2]; [discriminate|].
+  destruct (bytes_eqb_spec m Node.m_delete) as [->|N3]; [discriminate|].
+  simpl in Hm. apply find_key_from_none in Hm. split.
+  - simpl. rewrite K0, K1, K2, K3. intros [H|[H|[H|[H|H]]]]; try congruence; contradiction.
+  - unfold is_removable, common_verbs. simpl.
+    destruct (bytes_eqb_spec m m_get); [contradiction|]. destruct (bytes_eqb_spec m m_post); [contradiction|].
+    destruct (bytes_eqb_spec m m_put); [contradiction|]. destruct (bytes_eqb_spec m Node.m_delete); [contradiction|].
+    reflexivity.
+Qed.
+
+Lemma is_removable_false m : is_removable m = false -> In m common_verbs.
+Proof.
+  unfold is_removable. intros H. apply negb_false_iff in H. apply existsb_bytes_In in H. exact H.
+Qed.
+Lemma is_removable_true m : is_removable m = true -> ~ In m common_verbs.
+Proof.
+  unfold is_removable. intros H Hin. apply negb_true_iff in H. apply existsb_bytes_In in Hin. congruence.
+Qed.
+
+(* replacing a root by one with the same key *)
+Lemma WF_roots_replace l1 root l2 root' :
+  WF_roots' (l1 ++ root :: l2) -> WF_root root' -> nkey root' = nkey root -> childless_ok root' ->
+  WF_roots' (l1 ++ root' :: l2).
+Proof.
+  intros [H1 [H2 [H3 H4]]] Hw Hk Hc.
+  assert (map nkey (l1 ++ root' :: l2) = map nkey (l1 ++ root :: l2)) as Ek
+    by (rewrite !map_app; simpl; rewrite Hk; reflexivity).
+  unfold WF_roots'. rewrite Ek. split; [exact H1|]. split; [exact H2|].
+  apply Forall_app in H3, H4. destruct H3 as [H3a H3b], H4 as [H4a H4b].
+  inversion H3b; subst. inversion H4b; subst.
+  split; apply Forall_app; split; auto.
+Qed.
+
+Lemma firstn4_app_verbs (K1 K2 : list bytes) m :
+  firstn 4 (K1 ++ m :: K2) = common_verbs -> ~ In m common_verbs -> firstn 4 (K1 ++ K2) = common_verbs.
+Proof.
+  intros H Hni. unfold common_verbs in *.
+  destruct K1 as [|a [|b [|c [|d K1]]]]; cbn [firstn app] in *.
+  - exfalso. apply Hni. injection H as <-. simpl. tauto.
+  - exfalso. apply Hni. injection H as _ <-. simpl. tauto.
+  - exfalso. apply Hni. injection H as _ _ <-. simpl. tauto.
+  - exfalso. apply Hni. injection H as _ _ _ <-. simpl. tauto.
+  - exact H.
+Qed.
+
+Lemma WF_roots_remove l1 root l2 :
+  WF_roots' (l1 ++ root :: l2) -> ~ In (nkey root) common_verbs -> WF_roots' (l1 ++ l2).
+Proof.
+  intros [H1 [H2 [H3 H4]]] Hni. unfold WF_roots'. rewrite map_app in *. simpl in *.
+  split; [eapply firstn4_app_verbs; eauto|]. split; [eapply NoDup_remove_1; eauto|].
+  apply Forall_app in H3, H4. destruct H3 as [H3a H3b], H4 as [H4a H4b].
+  inversion H3b; subst. inversion H4b; subst.
+  split; apply Forall_app; split; auto.
+Qed.
+
+Lemma firstn4_app_tail (K : list bytes) m : firstn 4 K = common_verbs -> firstn 4 (K ++ [m]) = common_verbs.
+Proof. destruct K as [|a [|b [|c [|d K]]]]; simpl; try discriminate. auto. Qed.
+
+Lemma WF_roots_append rs root :
+  WF_roots' rs -> WF_root root -> ~ In (nkey root) (map nkey rs) -> childless_ok root -> WF_roots' (rs ++ [root]).
+Proof.
+  intros [H1 [H2 [H3 H4]]] Hw Hni Hc. unfold WF_roots'. rewrite map_app. simpl.
+  split; [apply firstn4_app_tail; exact H1|]. split.
+  - apply (Permutation_NoDup (l := nkey root :: map nkey rs)); [apply Permutation_cons_append|].
+    constructor; assumption.
+  - split; apply Forall_app; split; auto.
+Qed.
+
+(* ---------- routes of a forest ---------- *)
+Definition mpats (t : txn) (m : bytes) : list bytes :=
+  map (fun e => snd (fst e)) (filter (fun e : bytes * bytes * N => bytes_eqb (fst (fst e)) m) (routes_of_txn t)).
+
+Definition method_is (m : bytes) (e : bytes * bytes * N) : bool := bytes_eqb (fst (fst e)) m.
+
+Lemma filter_routes_same root : filter (method_is (nkey root)) (routes_of_root root) = routes_of_root root.
+Proof.
+  unfold routes_of_root. induction (rlist root) as [|r l IH]; simpl; [reflexivity|].
+  unfold method_is at 1. simpl. rewrite bytes_eqb_refl. f_equal. exact IH.
+Qed.
+
+Lemma filter_routes_other root m : nkey root <> m -> filter (method_is m) (routes_of_root root) = [].
+Proof.
+  intros Hne. unfold routes_of_root. induction (rlist root) as [|r l IH]; simpl; [reflexivity|].
+  unfold method_is at 1. simpl. destruct (bytes_eqb_spec (nkey root) m); [contradiction|]. exact IH.
+Qed.
+
+Lemma filter_roots_other rs m : ~ In m (map nkey rs) -> filter (method_is m) (flat_map routes_of_root rs) = [].
+Proof.
+  induction rs as [|r rs IH]; simpl; intros Hni; [reflexivity|].
+  rewrite filter_app, filter_routes_other, IH; auto.
+Qed.
+
+Lemma filter_roots_mid l1 root l2 : NoDup (map nkey (l1 ++ root :: l2)) ->
+  filter (method_is (nkey root)) (flat_map routes_of_root (l1 ++ root :: l2)) = routes_of_root root.
+Proof.
+  intros Hnd. rewrite map_app in Hnd. simpl in Hnd.
+  pose proof (NoDup_remove_2 _ _ _ Hnd) as Hni. rewrite in_app_iff in Hni.
+  rewrite flat_map_app. simpl. rewrite !filter_app, filter_routes_same.
+  rewrite !filter_roots_other by tauto. rewrite app_nil_r. reflexivity.
+Qed.
+
+Lemma mpats_root t l1 root l2 : t_roots t = l1 ++ root :: l2 -> NoDup (map nkey (t_roots t)) ->
+  mpats t (nkey root) = map rpat (rlist root).
+Proof.
+  intros E Hnd. unfold mpats, routes_of_txn. rewrite E in *. fold (method_is (nkey root)).
+  rewrite filter_roots_mid by exact Hnd. unfold routes_of_root. rewrite map_map. reflexivity.
+Qed.
+
+Lemma mpats_absent t m : ~ In m (map nkey (t_roots t)) -> mpats t m = [].
+Proof.
+  intros H. unfold mpats, routes_of_txn. fold (method_is m). rewrite filter_roots_other by exact H. reflexivity.
+Qed.
+
+Lemma rlist_root_children root : nroute root = None -> rlist root = flat_map rlist (nchildren root).
+Proof. destruct root as [k r ch]. simpl. intros ->. reflexivity. Qed.
+
+Lemma routes_mid l1 root l2 :
+  Permutation (flat_map routes_of_root (l1 ++ root :: l2)) (routes_of_root root ++ flat_map routes_of_root (l1 ++ l2)).
+Proof.
+  rewrite !flat_map_app. simpl. rewrite app_assoc.
+  rewrite (Permutation_app_comm (flat_map routes_of_root l1)). rewrite <- app_assoc. reflexivity.
+Qed.
+
+Lemma routes_of_root_perm root root' x : nkey root' = nkey root -> Permutation (rlist root') (x :: rlist root) ->
+  Permutation (routes_of_root root') ((nkey root, rpat x, rid x) :: routes_of_root root).
+Proof.
+  intros Hk Hp. unfold routes_of_root. rewrite Hk.
+  change ((nkey root, rpat x, rid x) :: map (fun r => (nkey root, rpat r, rid r)) (rlist root))
+    with (map (fun r => (nkey root, rpat r, rid r)) (x :: rlist root)).
+  apply Permutation_map. exact Hp.
+Qed.
+
+Lemma closed_nil : closed [] = true.
+Proof. reflexivity. Qed.
+
+Lemma valid_nonempty ri : valid_rinfo ri -> rpat (ri_route ri) <> [].
+Proof. intros [H _] E. rewrite E in H. discriminate. Qed.
+
+Lemma empty_root_WF m : WF_root (empty_root m).
+Proof. split; [reflexivity|]. split; constructor. Qed.
+
+(* ---------- insert ---------- *)
+Lemma replace_nth_mid (l1 : list node) root l2 root' : replace_nth (l1 ++ root :: l2) (List.length l1) root' = l1 ++ root' :: l2.
+Proof. apply replace_nth_app. Qed.
+
+Lemma routes_replace_perm l1 root l2 root' x : nkey root' = nkey root -> Permutation (rlist root') (x :: rlist root) ->
+  Permutation (flat_map routes_of_root (l1 ++ root' :: l2))
+              ((nkey root, rpat x, rid x) :: flat_map routes_of_root (l1 ++ root :: l2)).
+Proof.
+  intros Hk Hp. rewrite !routes_mid. rewrite (routes_of_root_perm root root' x Hk Hp). reflexivity.
+Qed.
+
+Theorem insert_tree_spec t m ri : WF_txn t -> valid_rinfo ri ->
+  let p := rpat (ri_route ri) in
+  match insert t m ri with
+  | ROk t' => WF_txn t' /\
+              Permutation (routes_of_txn t') ((m, p, rid (ri_route ri)) :: routes_of_txn t) /\
+              Forall (apart p) (mpats t m)
+  | RExist e => e = p /\ In p (mpats t m)
+  | RConflict ps => ps <> [] /\ exists others, Permutation (mpats t m) (ps ++ others) /\
+                                               Forall (clash p) ps /\ Forall (apart p) others
+  | RNotFound => False
+  end.
+Proof.
+  intros [Hroots Hsize] Hv p. apply WF_roots_alt in Hroots. destruct Hroots as [H1 [H2 [H3 H4]]].
+  unfold insert.
+  (* both branches: the roots are l1 ++ root :: l2 with root the tree of method m *)
+  assert (exists rs l1 root l2,
+            (match method_index (t_roots t) m with
+             | Some i => (t_roots t, i)
+             | None => (t_roots t ++ [empty_root m], List.length (t_roots t))
+             end) = (rs, List.length l1) /\ rs = l1 ++ root :: l2 /\ nkey root = m /\ WF_root root /\
+            flat_map routes_of_root rs = routes_of_txn t /\ mpats t m = pats (nchildren root) /\
+            (forall root', nkey root' = m -> nchildren root' <> [] -> WF_root root' -> WF_roots' (l1 ++ root' :: l2)))
+    as [rs [l1 [root [l2 [-> [Ers [Hk [Hw [Hsame [Hmp Hrepl]]]]]]]]]].
+  { destruct (method_index (t_roots t) m) as [i|] eqn:Em.
+    - destruct (method_index_some _ _ _ H1 Em) as [l1 [root [l2 [E [-> [Hk _]]]]]].
+      assert (WF_root root) as Hw.
+      { rewrite E in H3. apply Forall_app in H3. destruct H3 as [_ H3]. inversion H3; assumption. }
+      exists (t_roots t), l1, root, l2. split; [reflexivity|]. split; [exact E|]. split; [exact Hk|].
+      split; [exact Hw|]. split; [reflexivity|]. split.
+      + rewrite <- Hk. rewrite (mpats_root t l1 root l2 E H2). unfold pats.
+        rewrite rlist_root_children by apply Hw. reflexivity.
+      + intros root' Hk' Hc' Hw'. apply (WF_roots_replace l1 root l2 root'); auto.
+        * rewrite <- E. repeat split; auto.
+        * congruence.
+        * intros Hc. contradiction.
+    - destruct (method_index_none _ _ H1 Em) as [Hni Hrem].
+      exists (t_roots t ++ [empty_root m]), (t_roots t), (empty_root m), [].
+      split; [reflexivity|]. split; [reflexivity|]. split; [reflexivity|]. split; [apply empty_root_WF|].
+      split; [|split].
+      + unfold routes_of_txn. rewrite flat_map_app. simpl. rewrite app_nil_r. reflexivity.
+      + rewrite mpats_absent by exact Hni. reflexivity.
+      + intros root' Hk' Hc' Hw'. apply WF_roots_append; auto.
+        * repeat split; auto.
+        * rewrite Hk'. exact Hni.
+        * intros Hc. contradiction. }
+  subst rs. rewrite nth_error_app_mid.
+  destruct Hw as [Hr [Hs Hf]].
+  pose proof (ins_spec ri Hv (S (List.length p)) root [] 0 0 p (conj Hs Hf) closed_nil eq_refl
+                (valid_nonempty ri Hv) eq_refl (Nat.lt_succ_diag_r _)) as Hins.
+  fold p. destruct (ins (S (List.length p)) ri root 0 0 p) as [root' d|[e|ps]].
+  - destruct Hins as [Hk' [Hr' [[Hs' Hf'] [Hperm [Hap Hg]]]]]. rewrite replace_nth_mid.
+    assert (Permutation (rlist root') (ri_route ri :: rlist root)) as Hperm'.
+    { rewrite !rlist_root_children by congruence. exact Hperm. }
+    assert (Permutation (flat_map routes_of_root (l1 ++ root' :: l2))
+                        ((m, p, rid (ri_route ri)) :: routes_of_txn t)) as Hp'.
+    { rewrite <- Hsame, <- Hk. apply routes_replace_perm; auto. }
+    split; [|split].
+    + split.
+      * apply WF_roots_alt. cbn [t_roots]. apply Hrepl; [congruence| |].
+        -- intros E. rewrite E in Hperm. simpl in Hperm. apply Permutation_nil in Hperm. discriminate.
+        -- split; [congruence|]. split; assumption.
+      * cbn [t_size t_roots]. unfold routes_of_txn at 1. cbn [t_roots].
+        rewrite (Permutation_length Hp'). simpl. rewrite Hsize. lia.
+    + exact Hp'.
+    + rewrite Hmp. apply Forall_forall. exact Hap.
+  - destruct Hins as [-> Hin]. split; [reflexivity|]. rewrite Hmp. exact Hin.
+  - destruct Hins as [Hne [others [Hperm [Hcl Hap]]]]. split; [exact Hne|]. exists others. rewrite Hmp. auto.
+Qed.
+
+(* ---------- update ---------- *)
+Theorem update_tree_spec t m ri : WF_txn t -> rpat (ri_route ri) <> [] ->
+  let p := rpat (ri_route ri) in
+  match update t m ri with
+  | ROk t' => WF_txn t' /\ exists old l, Permutation (routes_of_txn t) ((m, p, old) :: l) /\
+                                        Permutation (routes_of_txn t') ((m, p, rid (ri_route ri)) :: l)
+  | RNotFound => ~ In p (mpats t m)
+  | _ => False
+  end.
+Proof.
+  intros [Hroots Hsize] Hne p. apply WF_roots_alt in Hroots. destruct Hroots as [H1 [H2 [H3 H4]]].
+  unfold update. destruct (method_index (t_roots t) m) as [i|] eqn:Em.
+  2:{ destruct (method_index_none _ _ H1 Em) as [Hni _]. rewrite mpats_absent by exact Hni. simpl. tauto. }
+  destruct (method_index_some _ _ _ H1 Em) as [l1 [root [l2 [E [-> [Hk _]]]]]].
+  assert (nth_error (t_roots t) (List.length l1) = Some root) as Hnth by (rewrite E; apply nth_error_app_mid).
+  assert (forall x, replace_nth (t_roots t) (List.length l1) x = l1 ++ x :: l2) as Hrep
+    by (intros x; rewrite E; apply replace_nth_mid).
+  assert (remove_nth (t_roots t) (List.length l1) = l1 ++ l2) as Hrem by (rewrite E; apply remove_nth_app).
+  rewrite Hnth.
+  assert (WF_root root) as Hw.
+  { rewrite E in H3. apply Forall_app in H3. destruct H3 as [_ H3]. inversion H3; assumption. }
+  destruct Hw as [Hr [Hs Hf]].
+  pose proof (upd_spec (ri_route ri) (S (List.length p)) root [] p (conj Hs Hf) eq_refl Hne (Nat.lt_succ_diag_r _)) as Hu.
+  fold p. destruct (upd (S (List.length p)) (ri_route ri) root p) as [root'|].
+  - destruct Hu as [Hk' [Hr' [[Hs' Hf'] [[Hl Hfb] [old [l [Hold [Hpa Hpb]]]]]]]].
+    rewrite Hrep.
+    set (f := fun r : route => (m, rpat r, rid r)).
+    assert (routes_of_root root = map f (rlist root)) as Er by (unfold routes_of_root; rewrite Hk; reflexivity).
+    assert (routes_of_root root' = map f (rlist root')) as Er' by (unfold routes_of_root; rewrite Hk', Hk; reflexivity).
+    assert (Permutation (routes_of_txn t) ((m, p, rid old) :: map f l ++ flat_map routes_of_root (l1 ++ l2))) as Hp1.
+    { unfold routes_of_txn. rewrite E, routes_mid, Er, (rlist_root_children root Hr), Hpa. simpl.
+      unfold f at 1. rewrite Hold. reflexivity. }
+    assert (Permutation (flat_map routes_of_root (l1 ++ root' :: l2))
+                        ((m, p, rid (ri_route ri)) :: map f l ++ flat_map routes_of_root (l1 ++ l2))) as Hp2.
+    { rewrite routes_mid, Er', (rlist_root_children root') by congruence. rewrite Hpb. reflexivity. }
+    split.
+    + split.
+      * apply WF_roots_alt. cbn [t_roots]. apply (WF_roots_replace l1 root l2 root').
+        -- rewrite <- E. repeat split; auto.
+        -- split; [congruence|]. split; assumption.
+        -- exact Hk'.
+        -- intros Hc. rewrite Hk'. rewrite E in H4. apply Forall_app in H4. destruct H4 as [_ H4].
+           inversion H4 as [|? ? Hco _]; subst. apply Hco. rewrite Hc in Hl. simpl in Hl.
+           destruct (nchildren root); [reflexivity|discriminate].
+      * cbn [t_size t_roots]. unfold routes_of_txn at 1. cbn [t_roots].
+        rewrite (Permutation_length Hp2), Hsize, (Permutation_length Hp1). reflexivity.
+    + exists (rid old), (map f l ++ flat_map routes_of_root (l1 ++ l2)). split; [exact Hp1|exact Hp2].
+  - rewrite <- Hk at 1. rewrite (mpats_root t l1 root l2 E H2). rewrite (rlist_root_children root Hr). exact Hu.
+Qed.
+
+(* ---------- remove ---------- *)
+Theorem remove_tree_spec t m p : WF_txn t -> p <> [] ->
+  match remove t m p with
+  | DOk t' r => WF_txn t' /\ rpat r = p /\ Permutation (routes_of_txn t) ((m, p, rid r) :: routes_of_txn t')
+  | DNotFound => ~ In p (mpats t m)
+  end.
+Proof.
+  intros [Hroots Hsize] Hne. apply WF_roots_alt in Hroots. destruct Hroots as [H1 [H2 [H3 H4]]].
+  unfold remove. destruct (method_index (t_roots t) m) as [i|] eqn:Em.
+  2:{ destruct (method_index_none _ _ H1 Em) as [Hni _]. rewrite mpats_absent by exact Hni. simpl. tauto. }
+  destruct (method_index_some _ _ _ H1 Em) as [l1 [root [l2 [E [-> [Hk _]]]]]].
+  assert (nth_error (t_roots t) (List.length l1) = Some root) as Hnth by (rewrite E; apply nth_error_app_mid).
+  assert (forall x, replace_nth (t_roots t) (List.length l1) x = l1 ++ x :: l2) as Hrep
+    by (intros x; rewrite E; apply replace_nth_mid).
+  assert (remove_nth (t_roots t) (List.length l1) = l1 ++ l2) as Hrem by (rewrite E; apply remove_nth_app).
+  rewrite Hnth.
+  assert (WF_root root) as Hw.
+  { rewrite E in H3. apply Forall_app in H3. destruct H3 as [_ H3]. inversion H3; assumption. }
+  assert (childless_ok root) as Hco.
+  { rewrite E in H4. apply Forall_app in H4. destruct H4 as [_ H4]. inversion H4; assumption. }
+  assert (WF_roots' (l1 ++ root :: l2)) as Hwr by (rewrite <- E; repeat split; auto).
+  pose proof (rem_spec (S (List.length p)) root true [] p Hw Hne (Nat.lt_succ_diag_r _)) as Hr. cbn [cpre app] in Hr.
+  assert (forall root' r, nkey root' = nkey root -> Permutation (rlist root) (r :: rlist root') -> rpat r = p ->
+            Permutation (routes_of_txn t) ((m, p, rid r) :: flat_map routes_of_root (l1 ++ root' :: l2))) as Hperm1.
+  { intros root' r Hk' Hp Hrp. unfold routes_of_txn. rewrite E, !routes_mid.
+    unfold routes_of_root at 1. rewrite Hp. simpl. rewrite Hk, Hrp. apply perm_skip.
+    apply Permutation_app_tail. unfold routes_of_root. rewrite Hk', Hk. reflexivity. }
+  assert (forall rs' (r : route), Permutation (routes_of_txn t) ((m, p, rid r) :: flat_map routes_of_root rs') ->
+            t_size t - 1 = Z.of_nat (List.length (flat_map routes_of_root rs')))%Z as Hsz.
+  { intros rs' r Hp. rewrite Hsize, (Permutation_length Hp). cbn [List.length]. rewrite Nat2Z.inj_succ. lia. }
+  destruct (rem (S (List.length p)) root true p) as [|root' r|r|parent r].
+  - rewrite <- Hk at 1. rewrite (mpats_root t l1 root l2 E H2). rewrite (rlist_root_children root) by apply Hw. exact Hr.
+  - destruct Hr as [Hw' [Hk' [Hrp [Hp Hc']]]]. simpl in Hw'. rewrite Hrep.
+    specialize (Hperm1 root' r Hk' Hp Hrp).
+    split; [|split; [exact Hrp|exact Hperm1]]. split.
+    + apply WF_roots_alt. cbn [t_roots]. apply (WF_roots_replace l1 root l2 root'); auto.
+      intros Hc. exfalso. apply (Hc' eq_refl Hc).
+    + cbn [t_size t_roots]. unfold routes_of_txn at 1. cbn [t_roots]. eapply Hsz; eauto.
+  - destruct Hr as [Hr _]. discriminate.
+  - destruct Hr as [_ [Hw' [Hk' [Hrp Hp]]]].
+    destruct (Tree.is_nil (nchildren parent) && is_removable m) eqn:Ec.
+    + apply andb_true_iff in Ec. destruct Ec as [Ec1 Ec2].
+      assert (nchildren parent = []) as Hcp by (destruct (nchildren parent); [reflexivity|discriminate]).
+      rewrite Hrem.
+      assert (Permutation (routes_of_txn t) ((m, p, rid r) :: flat_map routes_of_root (l1 ++ l2))) as Hperm2.
+      { rewrite (Hperm1 parent r Hk' Hp Hrp). apply perm_skip. rewrite routes_mid.
+        unfold routes_of_root at 1. destruct parent as [kp rp chp]. destruct Hw' as [Hrp' _].
+        cbn [nroute nchildren] in *. subst. reflexivity. }
+      split; [|split; [exact Hrp|exact Hperm2]]. split.
+      * apply WF_roots_alt. cbn [t_roots]. apply (WF_roots_remove l1 root l2 Hwr).
+        rewrite Hk. apply is_removable_true. exact Ec2.
+      * cbn [t_size t_roots]. unfold routes_of_txn at 1. cbn [t_roots]. eapply Hsz; eauto.
+    + rewrite Hrep.
+      assert (Node m (nroute parent) (nchildren parent) = parent) as -> by (destruct parent; simpl in *; congruence).
+      specialize (Hperm1 parent r Hk' Hp Hrp).
+      split; [|split; [exact Hrp|exact Hperm1]]. split.
+      * apply WF_roots_alt. cbn [t_roots]. apply (WF_roots_replace l1 root l2 parent); auto.
+        intros Hc. rewrite Hc in Ec. simpl in Ec. rewrite Hk', Hk. apply is_removable_false. exact Ec.
+      * cbn [t_size t_roots]. unfold routes_of_txn at 1. cbn [t_roots]. eapply Hsz; eauto.
+Qed.
+
+(* ---------- truncate ---------- *)
+Definition not_in_methods (ms : list bytes) (e : bytes * bytes * N) : bool :=
+  negb (existsb (bytes_eqb (fst (fst e))) ms).
+
+Lemma filter_all_true {A} (f : A -> bool) l : (forall x, In x l -> f x = true) -> filter f l = l.
+Proof.
+  induction l as [|x l IH]; simpl; intros H; [reflexivity|].
+  rewrite (H x) by (left; reflexivity). f_equal. apply IH. intros y Hy. apply H. right. exact Hy.
+Qed.
+
+Lemma filter_all_false {A} (f : A -> bool) l : (forall x, In x l -> f x = false) -> filter f l = [].
+Proof.
+  induction l as [|x l IH]; simpl; intros H; [reflexivity|].
+  rewrite (H x) by (left; reflexivity). apply IH. intros y Hy. apply H. right. exact Hy.
+Qed.
+
+Lemma filter_filter {A} (f g : A -> bool) l : filter f (filter g l) = filter (fun x => g x && f x) l.
+Proof.
+  induction l as [|x l IH]; simpl; [reflexivity|]. destruct (g x); simpl; [|exact IH].
+  destruct (f x); [f_equal|]; exact IH.
+Qed.
+
+Lemma routes_of_root_method root e : In e (routes_of_root root) -> fst (fst e) = nkey root.
+Proof. unfold routes_of_root. intros H. apply in_map_iff in H. destruct H as [r [<- _]]. reflexivity. Qed.
+
+Lemma routes_method_in rs e : In e (flat_map routes_of_root rs) -> In (fst (fst e)) (map nkey rs).
+Proof.
+  intros H. apply in_flat_map in H. destruct H as [root [Hr He]].
+  rewrite (routes_of_root_method root e He). apply in_map. exact Hr.
+Qed.
+
+Lemma filter_not_method_mid l1 root l2 : NoDup (map nkey (l1 ++ root :: l2)) ->
+  filter (fun e => negb (method_is (nkey root) e)) (flat_map routes_of_root (l1 ++ root :: l2))
+  = flat_map routes_of_root (l1 ++ l2).
+Proof.
+  intros Hnd. rewrite map_app in Hnd. simpl in Hnd.
+  pose proof (NoDup_remove_2 _ _ _ Hnd) as Hni. rewrite in_app_iff in Hni.
+  rewrite !flat_map_app. simpl. rewrite !filter_app.
+  rewrite (filter_all_true _ (flat_map routes_of_root l1)).
+  2:{ intros e He. apply routes_method_in in He. unfold method_is.
+      destruct (bytes_eqb_spec (fst (fst e)) (nkey root)) as [Eq|]; [|reflexivity]. rewrite Eq in He. tauto. }
+  rewrite (filter_all_true _ (flat_map routes_of_root l2)).
+  2:{ intros e He. apply routes_method_in in He. unfold method_is.
+      destruct (bytes_eqb_spec (fst (fst e)) (nkey root)) as [Eq|]; [|reflexivity]. rewrite Eq in He. tauto. }
+  rewrite (filter_all_false _ (routes_of_root root)).
+  2:{ intros e He. apply routes_of_root_method in He. unfold method_is. rewrite He, bytes_eqb_refl. reflexivity. }
+  reflexivity.
+Qed.
+
+Lemma routes_length_mid l1 root l2 :
+  List.length (flat_map routes_of_root (l1 ++ root :: l2))
+  = List.length (flat_map routes_of_root (l1 ++ l2)) + List.length (rlist root).
+Proof.
+  rewrite (Permutation_length (routes_mid l1 root l2)), app_length. unfold routes_of_root at 1.
+  rewrite map_length. lia.
+Qed.
+
+Lemma truncate_methods_spec : forall ms rs size,
+  WF_roots' rs -> size = Z.of_nat (List.length (flat_map routes_of_root rs)) ->
+  WF_roots' (fst (truncate_methods rs size ms)) /\
+  snd (truncate_methods rs size ms) = Z.of_nat (List.length (flat_map routes_of_root (fst (truncate_methods rs size ms)))) /\
+  flat_map routes_of_root (fst (truncate_methods rs size ms)) = filter (not_in_methods ms) (flat_map routes_of_root rs).
+Proof.
+  induction ms as [|m more IH]; intros rs size Hw Hsize.
+  - simpl. split; [exact Hw|]. split; [exact Hsize|]. symmetry. apply filter_all_true. reflexivity.
+  - cbn [truncate_methods]. destruct Hw as [H1 [H2 [H3 H4]]].
+    assert (forall rs1, flat_map routes_of_root rs1 = filter (fun e => negb (method_is m e)) (flat_map routes_of_root rs) ->
+              filter (not_in_methods more) (flat_map routes_of_root rs1) = filter (not_in_methods (m :: more)) (flat_map routes_of_root rs)) as Hcomp.
+    { intros rs1 ->. rewrite filter_filter. apply filter_ext. intros e. unfold not_in_methods, method_is. simpl.
+      rewrite negb_orb. reflexivity. }
+    destruct (method_index rs m) as [idx|] eqn:Em.
+    2:{ destruct (method_index_none _ _ H1 Em) as [Hni _].
+        destruct (IH rs size (conj H1 (conj H2 (conj H3 H4))) Hsize) as [Ha [Hb Hc]].
+        split; [exact Ha|]. split; [exact Hb|]. rewrite Hc. apply Hcomp.
+        symmetry. apply filter_all_true. intros e He. apply routes_method_in in He. unfold method_is.
+        destruct (bytes_eqb_spec (fst (fst e)) m) as [Eq|]; [|reflexivity]. rewrite Eq in He. contradiction. }
+    destruct (method_index_some _ _ _ H1 Em) as [l1 [root [l2 [E [-> [Hk Hverb]]]]]].
+    assert (nth_error rs (List.length l1) = Some root) as Hnth by (rewrite E; apply nth_error_app_mid).
+    rewrite Hnth. rewrite routes_of_node_rlist.
+    assert (WF_roots' (l1 ++ root :: l2)) as Hwr by (rewrite <- E; repeat split; auto).
+    assert (size - Z.of_nat (List.length (rlist root)) = Z.of_nat (List.length (flat_map routes_of_root (l1 ++ l2))))%Z as Hsz.
+    { rewrite Hsize, E, routes_length_mid. lia. }
+    assert (flat_map routes_of_root (l1 ++ l2) = filter (fun e => negb (method_is m e)) (flat_map routes_of_root rs)) as Hfl.
+    { rewrite E, <- Hk. symmetry. apply filter_not_method_mid. rewrite <- E. exact H2. }
+    destruct (is_removable m) eqn:Erm; cbn [negb].
+    + (* custom method: the root disappears *)
+      assert (remove_nth rs (List.length l1) = l1 ++ l2) as -> by (rewrite E; apply remove_nth_app).
+      assert (WF_roots' (l1 ++ l2)) as Hw'.
+      { apply (WF_roots_remove l1 root l2 Hwr). rewrite Hk. apply is_removable_true. exact Erm. }
+      destruct (IH (l1 ++ l2) _ Hw' Hsz) as [Ha [Hb Hc]].
+      split; [exact Ha|]. split; [exact Hb|]. rewrite Hc. apply Hcomp. exact Hfl.
+    + (* one of the four verbs: an empty root takes its place *)
+      assert (replace_nth rs (List.length l1) (empty_root (nth (List.length l1) common_verbs [])) = l1 ++ empty_root m :: l2) as ->
+        by (rewrite (Hverb eq_refl), E; apply replace_nth_mid).
+      assert (WF_roots' (l1 ++ empty_root m :: l2)) as Hw'.
+      { apply (WF_roots_replace l1 root l2 (empty_root m) Hwr); [apply empty_root_WF|simpl; congruence|].
+        intros _. simpl. apply is_removable_false. exact Erm. }
+      assert (flat_map routes_of_root (l1 ++ empty_root m :: l2) = flat_map routes_of_root (l1 ++ l2)) as Hsame.
+      { rewrite !flat_map_app. reflexivity. }
+      rewrite <- Hsame in Hsz, Hfl.
+      destruct (IH (l1 ++ empty_root m :: l2) _ Hw' Hsz) as [Ha [Hb Hc]].
+      split; [exact Ha|]. split; [exact Hb|]. rewrite Hc. apply Hcomp. exact Hfl.
+Qed.
+
+Theorem truncate_tree_spec t ms : WF_txn t ->
+  WF_txn (truncate t ms) /\
+  routes_of_txn (truncate t ms) = match ms with [] => [] | _ => filter (not_in_methods ms) (routes_of_txn t) end.
+Proof.
+  intros [Hroots Hsize]. destruct ms as [|m more].
+  - simpl. split; [|reflexivity]. apply wf_txnb_spec. reflexivity.
+  - apply WF_roots_alt in Hroots. unfold truncate.
+    pose proof (truncate_methods_spec (m :: more) (t_roots t) (t_size t) Hroots Hsize) as H.
+    destruct (truncate_methods (t_roots t) (t_size t) (m :: more)) as [rs sz]. cbn [fst snd] in H.
+    destruct H as [Ha [Hb Hc]]. split; [|exact Hc]. split; [apply WF_roots_alt; exact Ha|exact Hb].
+Qed.
+
+(* ---------- Iter().All() lists exactly routes_of_txn ---------- *)
+Lemma all_of_routes t : WF_txn t -> all_of t = routes_of_txn t.
+Proof.
+  intros [[_ [_ [_ Hw]]] _]. unfold all_of, routes_of_txn.
+  induction (t_roots t) as [|root rs IH]; [reflexivity|].
+  inversion Hw as [|? ? [Hr _] Hw']; subst. specialize (IH Hw'). simpl.
+  destruct (nchildren root) as [|c ch] eqn:Ec; simpl.
+  - rewrite IH. unfold routes_of_root. rewrite (rlist_root_children root Hr), Ec. reflexivity.
+  - rewrite IH. unfold routes_of_root. rewrite routes_of_node_rlist. reflexivity.
+Qed.
+
+(* ---------- well-formedness is preserved ---------- *)
+Theorem WF_empty : WF_txn empty_txn.
+Proof. exact empty_txn_wf. Qed.
+
+Theorem WF_insert t m ri t' : WF_txn t -> valid_rinfo ri -> insert t m ri = ROk t' -> WF_txn t'.
+Proof. intros Hw Hv E. pose proof (insert_tree_spec t m ri Hw Hv) as H. rewrite E in H. apply H. Qed.
+
+Theorem WF_update t m ri t' : WF_txn t -> rpat (ri_route ri) <> [] -> update t m ri = ROk t' -> WF_txn t'.
+Proof. intros Hw Hv E. pose proof (update_tree_spec t m ri Hw Hv) as H. rewrite E in H. apply H. Qed.
+
+Theorem WF_remove t m p t' r : WF_txn t -> p <> [] -> remove t m p = DOk t' r -> WF_txn t'.
+Proof. intros Hw Hv E. pose proof (remove_tree_spec t m p Hw Hv) as H. rewrite E in H. apply H. Qed.
+
+Theorem WF_truncate t ms : WF_txn t -> WF_txn (truncate t ms).
+Proof. intros Hw. apply truncate_tree_spec. exact Hw. Qed.
+
